@@ -110,6 +110,23 @@ def m_vec_truncate(ex, site, a):
     return unit()
 
 
+@model('Vec::resize')
+def m_vec_resize(ex, site, a):
+    v = the_vec(ex, a[0]); n = conc_index(ex, a[1], 1 << 40, 'resize')
+    if n > 1 << 20: raise Unsupported('Vec::resize to %d elements' % n)
+    if n < len(v.items): del v.items[n:]
+    else: v.items.extend([a[2]] * (n - len(v.items)))
+    return unit()
+
+
+@model('Vec::split_off')
+def m_vec_split_off(ex, site, a):
+    v = the_vec(ex, a[0]); n = conc_index(ex, a[1], len(v.items), 'split_off')
+    if n > len(v.items): raise Panic('index', '`at` split index (is %d) should be <= len (is %d)' % (n, len(v.items)), ex.where())
+    tail = v.items[n:]; del v.items[n:]
+    return VecV(tail, v.kind)
+
+
 @model('Vec::extend_from_slice', 'String::push_str')
 def m_extend_from_slice(ex, site, a):
     the_vec(ex, a[0]).items.extend(items_of(ex, a[1])); return unit()
